@@ -51,6 +51,7 @@ def check(run, tier):
         "weights": w, "idents": alike, "policies": ["default", "default", "grouped", "partial", "open"]})
     # text that is the identifier of no object although a lenient store would read it as one ('01', ' 1', '1.0' ...)
     traces += E.alias_identifier_traces(quick, prefix="c03alias")
+    traces += two_owners(allp, quick)
     E.judge(run, traces, only=ONLY, name="c03")
     E.summarise(run, traces)
     denial_probe(run, allp, quick)
@@ -91,6 +92,36 @@ def granted(pols, pn, ident, owner, t, op):
 
 
 GOV = {"Encrypt": "Get", "Decrypt": "Get", "Sign": "Get", "SignatureVerify": "Get", "MAC": "Get"}
+
+
+def two_owners(pols, quick):
+    """Objects that agree in type and policy and differ in their OWNER only, created in both orders, then listed and read
+    by each owner and by a third party: a decision that depends on the owner (ALLOW_OWNER) must be taken per object."""
+    from .. import engtrace as T
+    sym = lambda pol: {"otype": "SymmetricKey", "attrs": [{"name": "Cryptographic Algorithm", "v": "AES"}, {"name": "Cryptographic Length", "v": 128},
+                                                          {"name": "Cryptographic Usage Mask", "v": ["ENCRYPT"]},
+                                                          {"name": "Operation Policy Name", "v": pol}]}
+    traces = []
+    k = 0
+    for pol in ["default", "open", "grouped", "partial"][:2 if quick else 4]:
+        for order in (("alice", "bob", "alice"), ("bob", "alice", "bob")):
+            k += 1
+            drv = D.EngineDriver(policies=pols, intern=E.new_interner())
+            try:
+                rec = T.Recorder(drv, "owners%d" % k)
+                for u in order:
+                    rec.request(D.one("Create", sym(pol), user=u))
+                for (u, g) in (("alice", None), ("bob", None), ("carol", None), ("carol", ["gA"])):
+                    rec.request(D.one("Locate", {"filters": [], "offset": -1, "max": -1}, user=u, groups=g))
+                    for uid in (1, 2, 3):
+                        rec.request(D.one("GetAttributeList", {"uid": uid}, user=u, groups=g))
+                rec.close()
+                tr = rec.trace()
+                tr["raw"] = rec.raw
+                traces.append(tr)
+            finally:
+                drv.close()
+    return traces
 
 
 def denial_probe(run, pols, quick):
